@@ -72,11 +72,17 @@ def _run_one(args):
     t0 = time.time()
     signal.alarm(TASK_TIMEOUT)
     stale = isinstance(task, dict) and task.get("_stale_blackboard")
+    dupflag = isinstance(task, dict) and task.get("_dupflag")
     try:
         if stale:
             from . import families
             families.STALE[0] = True
             rep.class_suffix = ":stale_attribute_blackboard"
+        if dupflag:
+            import mouette
+            _old_dup = mouette.config.display_duplicate_attribute_warning
+            mouette.config.display_duplicate_attribute_warning = True
+            rep.class_suffix = ":duplicate_attribute_flag"
         _driver.run_task(task, rep)
     except WatchdogTimeout:
         rep.violation(f"{_driver.ID}.task_terminates", "task", "hang", "task-watchdog", {"task": task})
@@ -84,6 +90,10 @@ def _run_one(args):
         err = traceback.format_exc()
     finally:
         signal.alarm(0)
+        if dupflag:
+            mouette.config.display_duplicate_attribute_warning = _old_dup
+            rep.counters = {"duplicate_attribute_flag:" + k: v for k, v in rep.counters.items()}
+            rep.count("duplicate_attribute_flag:tasks")
         if stale:
             families.STALE[0] = False
             # family-size counters of the drivers' vacuity guards count the regular tasks only
@@ -151,6 +161,11 @@ def main():
         # history deviation shared by several drivers (mc/families.py, STALE): the same task once more on meshes whose
         # attribute blackboard was filled on another geometry before the vertices were moved to the tested positions
         tasks += [dict(t, _stale_blackboard=True) for t in tasks if isinstance(t, dict) and driver.stale_variant(t, args.tier)]
+    if hasattr(driver, "dupflag_variant"):
+        # configuration deviation shared by several drivers: config.display_duplicate_attribute_warning = True makes
+        # create_attribute hand back an existing attribute of the same name instead of a fresh one
+        tasks += [dict(t, _dupflag=True) for t in tasks if isinstance(t, dict) and not t.get("_stale_blackboard")
+                  and driver.dupflag_variant(t, args.tier)]
     if args.only:
         tasks = [t for t in tasks if args.only in json.dumps(t)]
     if args.list_tasks:
@@ -307,6 +322,10 @@ def _replay(driver, pid, path):
         from . import families
         families.STALE[0] = True
         rep.class_suffix = ":stale_attribute_blackboard"
+    if isinstance(data["task"], dict) and data["task"].get("_dupflag"):
+        import mouette
+        mouette.config.display_duplicate_attribute_warning = True
+        rep.class_suffix = ":duplicate_attribute_flag"
     try:
         driver.run_task(_detuple(data["task"]), rep)
     except BaseException as e:
